@@ -26,6 +26,7 @@ func init() {
 		Rule: "programs of the language fragment both backends implement (typed model grammar without trigger statements, spawn and capturing closures; unicode strings included), each run by the tree-walking interpreter and compiled+run on the VM: host writes and outcome class (ok / uncaught throw + message / fatal kind by name) must agree; non-trivial = program executes >= 8 reference steps with output or a non-ok outcome, or leaves the modelled fragment; distinct by program text",
 		Jobs: []Job{
 			{Name: "diff", Run: "^TestDiff$", Checks: [2]int{1500, 10000}, Shards: [2]int{8, 16}},
+			{Name: "pairsdiff", Run: "^TestTablePairsDiff$", Shards: [2]int{8, 16}},
 		}})
 }
 
@@ -41,9 +42,10 @@ func init() {
 
 func init() {
 	reg(PropCfg{ID: "C02", Pkg: "c02", Level: "exploration",
-		Rule: "analyzer-accepted programs from the wild generator (typed model grammar plus hostile operands: zero divisors, negative/huge shift counts and exponents, float ** and / 0, unwrap/expect of none, unicode indexing, out-of-range indices) x backend in {VM, interpreter} x CoreLimits drawn from {1..8,16,64,500,10000}^3 (40% of cases); validity predicate: the sandbox worker answers with outcome in {ok, exception, fatal, terminated}, never dies (Go panic / fatal error), never hangs (double-checked budget), typed host functions only receive conforming values; non-trivial = accepted program containing >= 1 hostile construct; distinct by program text + limits",
+		Rule: "analyzer-accepted programs from the wild generator (typed model grammar plus hostile operands: zero divisors, negative/huge shift counts and exponents, float ** and / 0, unwrap/expect of none, unicode indexing, out-of-range indices) x backend in {VM, interpreter} x CoreLimits drawn from {1..8,16,64,500,10000}^3 (40% of cases); validity predicate: the sandbox worker answers with outcome in {ok, exception, fatal, terminated}, never dies (Go panic / fatal error), never hangs (double-checked budget), typed host functions only receive conforming values; non-trivial = accepted program containing >= 1 hostile construct; distinct by program text + limits. Table: every program of the verif/pairs cross product (pool expressions under every infix and assignment operator, index, call, member, declared type, ...) that the analyzer accepts is run on both backends under the same predicate",
 		Jobs: []Job{
 			{Name: "robust", Run: "^TestRobust$", Checks: [2]int{1200, 10000}, Shards: [2]int{8, 16}},
+			{Name: "pairsrun", Run: "^TestTablePairsRun$", Shards: [2]int{8, 16}},
 		}})
 }
 
@@ -52,6 +54,7 @@ func init() {
 		Rule: "expression texts parsed by the repository parser and by an independent table-driven reference parser written from the operator table in the property: canonical S-expression trees must be identical; table = every ordered pair and triple of the 19 binary operators and 'as', the 12 assignment operators at the root over every pair, all prefix x binary x postfix combinations (exhaustive); random = expression trees to depth 8 printed with minimal, textbook and full parentheses; layout = token sequences of the shipped examples/tests and generated programs re-spaced with whitespace/comments, redundant parentheses around single-node operands, trailing commas: canonical program trees and error status must not change; non-trivial = >= 2 operators (two levels to order or one level to associate) / a variant that differs from the original text; distinct by text",
 		Jobs: []Job{
 			{Name: "tables", Run: "^(TestTablePairsTriples|TestReferenceExamples)$", Shards: [2]int{2, 4}},
+			{Name: "blockpostfix", Run: "^TestTableBlockPostfix$", Shards: [2]int{4, 8}},
 			{Name: "trees", Run: "^TestTrees$", Checks: [2]int{5000, 60000}, Shards: [2]int{4, 16}},
 			{Name: "layout", Run: "^TestLayout$", Checks: [2]int{3000, 40000}, Shards: [2]int{4, 16}},
 		}})
